@@ -10,6 +10,7 @@ import (
 	"net/http"
 	"net/http/httptest"
 	"sync"
+	"sync/atomic"
 	"time"
 
 	connect "github.com/bufbuild/connect-go"
@@ -75,6 +76,65 @@ func decompressorSharingAlgo(algo string, triggers [][]byte, goroutines, perG in
 					wrong++
 					if firstWrong == "" {
 						firstWrong = fmt.Sprintf("call %d/%d: HTTP %d, body %q", g, k, code, body[:minInt(len(body), 60)])
+					}
+					mu.Unlock()
+				}
+			}
+		}(g)
+	}
+	wg.Wait()
+	return tr.Snapshot(), wrong, firstWrong
+}
+
+// clientDecompressorSharing is decompressorSharing for a CLIENT: one client with a tracked pooled
+// decompressor and a read limit of 256; first calls answered with the trigger bodies (compressed
+// unary Connect responses that are corrupt or inflate beyond the limit), then goroutines x perG
+// calls at the same time, each answered with the compressed echo of its own request.
+func clientDecompressorSharing(triggers [][]byte, goroutines, perG int) (problems []string, wrong int, firstWrong string) {
+	tr := &h.Tracker{}
+	var trigger atomic.Pointer[[]byte]
+	doer := &h.CannedClient{Build: func(req *http.Request) (*http.Response, error) {
+		hdr := http.Header{"Content-Type": {"application/toy"}, "Content-Encoding": {"rle"}}
+		if t := trigger.Load(); t != nil {
+			return h.NewResponse(200, hdr, h.NewChunkBody([][]byte{*t}, h.FinCleanEOF), nil), nil
+		}
+		var wire []byte
+		for _, b := range []byte("echo:" + req.Header.Get("X-Payload")) {
+			wire = append(wire, 1, b)
+		}
+		return h.NewResponse(200, hdr, h.NewChunkBody([][]byte{wire}, h.FinCleanEOF), nil), nil
+	}}
+	client := connect.NewClient[h.Raw, h.Raw](doer, "http://verif.local/verif.Svc/M", connect.WithCodec(h.ToyCodec{}), h.WithAcceptTrackedRLE(tr), connect.WithReadMaxBytes(256))
+	for i := range triggers {
+		trigger.Store(&triggers[i])
+		_, _ = client.CallUnary(context.Background(), connect.NewRequest(&h.Raw{B: []byte("q")}))
+	}
+	trigger.Store(nil)
+	var mu sync.Mutex
+	var wg sync.WaitGroup
+	for g := 0; g < goroutines; g++ {
+		wg.Add(1)
+		go func(g int) {
+			defer wg.Done()
+			for k := 0; k < perG; k++ {
+				payload := fmt.Sprintf("call-%d-%d-%s", g, k, bytes.Repeat([]byte{byte('a' + g%26)}, 20+k))
+				req := connect.NewRequest(&h.Raw{B: []byte("q")})
+				req.Header().Set("X-Payload", payload)
+				var got string
+				var err error
+				if p := safely(func() {
+					var res *connect.Response[h.Raw]
+					if res, err = client.CallUnary(context.Background(), req); err == nil {
+						got = string(res.Msg.B)
+					}
+				}); p != nil {
+					err = fmt.Errorf("panic: %v", p)
+				}
+				if err != nil || got != "echo:"+payload {
+					mu.Lock()
+					wrong++
+					if firstWrong == "" {
+						firstWrong = fmt.Sprintf("call %d/%d: err=%v, message %q", g, k, err, got[:minInt(len(got), 60)])
 					}
 					mu.Unlock()
 				}
